@@ -13,7 +13,14 @@ E = fm.errors
 U = fm.UNITS
 
 # exact conversion factors to SI base of a small catalogue (hand-written, no pint)
-FACT = {"m": (Fr(1), "L"), "km": (Fr(1000), "L"), "mm": (Fr(1, 1000), "L"), "cm": (Fr(1, 100), "L"), "s": (Fr(1), "T"), "h": (Fr(3600), "T"), "": (Fr(1), "1"), "%": (Fr(1, 100), "1")}
+FACT = {"m": (Fr(1), "L"), "km": (Fr(1000), "L"), "mm": (Fr(1, 1000), "L"), "cm": (Fr(1, 100), "L"), "s": (Fr(1), "T"), "h": (Fr(3600), "T"), "": (Fr(1), "1"), "%": (Fr(1, 100), "1"),
+        "K": (Fr(1), "Th"), "degC": (Fr(1), "Th"), "degF": (Fr(5, 9), "Th")}
+OFFS = {"degC": 273.15, "degF": 273.15 - 32 * 5 / 9}  # value_SI = value * factor + offset
+
+
+def conv(v, a, b):
+    """numbers in units a expressed in units b (hand-written table, with offsets)"""
+    return (np.asarray(v, dtype=float) * float(FACT[a][0]) + OFFS.get(a, 0.0) - OFFS.get(b, 0.0)) / float(FACT[b][0])
 
 
 def grids():
@@ -52,7 +59,7 @@ def payloads(gname, g, pu):
     out.append(("quantity_same", U.Quantity(base.copy(), pu), base))
     for fu in FACT:
         if fu != pu and FACT[fu][1] == FACT[pu][1]:
-            out.append((f"quantity_{fu or '1'}", U.Quantity(base.copy(), fu), base * float(FACT[fu][0] / FACT[pu][0])))
+            out.append((f"quantity_{fu or '1'}", U.Quantity(base.copy(), fu), conv(base, fu, pu)))
             break
     bad = next(fu for fu in FACT if FACT[fu][1] != FACT[pu][1])
     out.append(("quantity_incompatible", U.Quantity(base.copy(), bad), E.FinamDataError))
@@ -84,7 +91,6 @@ def run_product(case):
         if isinstance(want, type):
             res.append((pname, "accepted_but_must_be_refused", f"got {d.shape} {d.units}"))
             continue
-        f = float(FACT[pu][0] / FACT[cu][0])
         mag = d.magnitude
         if tuple(d.shape) != (1,) + shape_of(g):
             res.append((pname, "shape", f"{d.shape} != {(1,) + shape_of(g)}"))
@@ -92,8 +98,9 @@ def run_product(case):
         if d.units != U.Unit(cu or "dimensionless"):
             res.append((pname, "units", f"{d.units} != {cu}"))
         keep = ~np.ma.getmaskarray(payload).reshape(shape_of(g)) if pname.startswith("masked") else np.ones(shape_of(g), dtype=bool)
-        if not np.allclose(np.ma.getdata(mag)[0][keep], (np.asarray(want) * f)[keep], rtol=1e-12, atol=0):
-            res.append((pname, "values", f"got {np.ma.getdata(mag)[0].tolist()} want {(np.asarray(want) * f).tolist()}"))
+        wantc = conv(want, pu, cu)
+        if not np.allclose(np.ma.getdata(mag)[0][keep], wantc[keep], rtol=1e-11, atol=1e-9):
+            res.append((pname, "values", f"got {np.ma.getdata(mag)[0].tolist()} want {wantc.tolist()}"))
         if pname.startswith("masked"):
             wm = np.ma.getmaskarray(payload).reshape(shape_of(g))
             if not (np.ma.isMaskedArray(mag) and np.array_equal(np.ma.getmaskarray(mag)[0], wm)):
@@ -121,6 +128,13 @@ def run_sharing(case):
             b = {"same": a, "view": a[...], "reshaped_view": a.reshape(-1).reshape(shp), "tt_view": a.T.T, "copy": a.copy(), "new": a + 1.0}[name]
             b = b if first_kind == "plain" else U.Quantity(b, "m")
             shares = name not in ("copy", "new")
+            hist = case.get("history", 1)
+            for h in range(1, hist):  # further independent publications in between: the *previous* one is then not the first retained one
+                a = np.array(a + 10.0 * h)
+                out.push_data(a if first_kind == "plain" else U.Quantity(a, "m"), T0 + H(h) / 4)
+            if hist > 1:
+                b = {"same": a, "view": a[...], "reshaped_view": a.reshape(-1).reshape(shp), "tt_view": a.T.T, "copy": a.copy(), "new": a + 1.0}[name]
+                b = b if first_kind == "plain" else U.Quantity(b, "m")
             try:
                 out.push_data(b, T0 + H(1))
                 if shares:
@@ -149,7 +163,7 @@ def run_case(case):
         out["n"] = n
         out["nontrivial"] = n
         for name, how, detail in res:
-            out["violations"].append(viol(dict(kind="republication", how=how, form=name), f"grid={case['grid']} second publication '{name}' ({detail}): {how}", case))
+            out["violations"].append(viol(dict(kind="republication", how=how, form=name), f"grid={case['grid']} publication '{name}' after {case.get('history', 1)} retained publication(s) ({detail}): {how}", case))
         out["sample"] = dict(case)
     return out
 
@@ -171,7 +185,8 @@ def run(tier, seed, agg):
     for gname in grids():
         for pu, cu in pairs:
             cases.append(dict(kind="product", grid=gname, pu=pu, cu=cu))
-        cases.append(dict(kind="sharing", grid=gname))
+        for hist in (1, 2, 3):
+            cases.append(dict(kind="sharing", grid=gname, history=hist))
     k = seed % len(cases)
     for r in pmap(run_case, cases[k:] + cases[:k]):
         agg.add(r)
